@@ -49,6 +49,7 @@ class C11(Prop):
     title = "pattern strings mean what the syntax documentation says"
     thm_modules = ["PeliteModel.Thm.C11", "PeliteModel.Thm.C11Parse"]
     gens = gen_patsem.SEM_GENS + props_pattern.PARSE_GENS
+    named_errors = set()     # the statement names no parse error kind: errors agree by class
 
     def judge(self, op, impl, model, spec):
         if op.startswith("pat_ref"):
